@@ -302,8 +302,10 @@ class kFlowDecompCycles(walkmodel.AbstractWalkModelDiGraph):
         solution_copy = copy.deepcopy(solution)
         non_empty_walks = []
         non_empty_weights = []
-        for walk, weight in zip(solution["walks"], solution["weights"]):
-            if len(walk) > 1:
+        # In node mode a walk is empty iff its internal (node-expanded) walk is: [v.0, v.1] condenses to the one-node walk [v]
+        internal_walks = solution.get("_walks_internal", solution["walks"])
+        for walk, internal_walk, weight in zip(solution["walks"], internal_walks, solution["weights"]):
+            if len(internal_walk) > 1:
                 non_empty_walks.append(walk)
                 non_empty_weights.append(weight)
 
